@@ -399,5 +399,18 @@ pub fn corr(seed: u64, n: u64) {
     for it in 0..n {
         match it % 5 { 0 | 1 => corr_nearest(&mut stats, &mut rng), 2 | 3 => corr_roots(&mut stats, &mut rng), _ => corr_path(&mut stats, &mut rng) }
     }
+    // `polynomial_to_bezier` (power basis to Bezier form) at N = 2 .. 8 against the generated function, bit for bit
+    let mut rng_p = Rng(seed ^ 0x9017C09);
+    for it in 0..(n / 10 + 30) {
+        use flo_curves::bezier::roots::polynomial_to_bezier;
+        let k = 2 + (it % 7) as usize;
+        let cs: Vec<f64> = (0..k).map(|_| match rng_p.i(4) { 0 => (rng_p.i(41) as f64 - 20.0) / 8.0, 1 => 0.0, _ => rng_p.r(-3.0, 3.0) }).collect();
+        fn run<const N: usize>(cs: &[f64]) -> Vec<Coord2> { let mut a = [0.0f64; N]; a.copy_from_slice(cs); polynomial_to_bezier::<Coord2, N>(a).to_vec() }
+        let out = match k { 2 => run::<2>(&cs), 3 => run::<3>(&cs), 4 => run::<4>(&cs), 5 => run::<5>(&cs), 6 => run::<6>(&cs), 7 => run::<7>(&cs), _ => run::<8>(&cs) };
+        let mut line = format!("C09 poly R #{} {} |", k, hxs(&cs));
+        for q in &out { line += &format!(" {} {}", hx(q.0), hx(q.1)); }
+        stats.count(&format!("poly.n{}", k));
+        println!("{}", line);
+    }
     stats.print("C09", "corr");
 }
